@@ -5,6 +5,7 @@ import (
 	"go/token"
 	"go/types"
 	"os"
+	"strings"
 
 	"golang.org/x/tools/go/ssa"
 )
@@ -126,6 +127,90 @@ func runC11(c *Ctx) {
 		fn := c.Method(ec, true, m)
 		if fn != nil {
 			r.Check("R11.1", FuncName(fn), "tolerates a nil receiver", fn.Pos(), toleratesNilReceiver(fn) || toleratesNilReceiverSem(ix, fn, 0), "rows hold a nil container until they have an error or join a table; the method is reached through that nil pointer")
+		}
+	}
+
+	// AddError records every non-nil error a non-nil container is given: a path through it that stores nothing is a
+	// path on which the receiver or the error was found nil - nothing else (no filter, no limit, no de-duplication)
+	if fn := c.Method(ec, true, "AddError"); fn != nil && len(fn.Params) >= 2 {
+		storesIn := map[*ssa.Function]bool{}
+		for _, fs := range c.StoresTo(errs) {
+			storesIn[fs.Fn] = true
+		}
+		records := func(in ssa.Instruction) bool {
+			if st, ok := in.(*ssa.Store); ok {
+				if f, _ := storeField(st.Addr); f == errs {
+					return true
+				}
+			}
+			if h := staticCallee(in); h != nil && h != fn && storesIn[h] {
+				return true
+			}
+			return false
+		}
+		type frame struct {
+			b      *ssa.BasicBlock
+			conds  []condFact
+			stored bool
+		}
+		npaths, bad := 0, 0
+		var badAt token.Pos
+		var why string
+		var walk func(fr frame, seen map[*ssa.BasicBlock]bool)
+		walk = func(fr frame, seen map[*ssa.BasicBlock]bool) {
+			if npaths > 512 || seen[fr.b] {
+				return
+			}
+			seen[fr.b] = true
+			defer delete(seen, fr.b)
+			for _, in := range fr.b.Instrs {
+				if records(in) {
+					fr.stored = true
+				}
+				switch x := in.(type) {
+				case *ssa.Return:
+					npaths++
+					if fr.stored {
+						return
+					}
+					excused := false
+					for _, cf := range expandConds(fr.conds) {
+						if e, nn, isT := nilTest(cf.Cond); isT && (e == ssa.Value(fn.Params[0]) || e == ssa.Value(fn.Params[1])) && ((nn == 0 && !cf.Val) || (nn == 1 && cf.Val)) {
+							excused = true
+						}
+					}
+					if !excused {
+						bad++
+						badAt = x.Pos()
+						var cs []string
+						for _, cf := range fr.conds {
+							cs = append(cs, fmt.Sprintf("%s=%v", cf.Cond.String(), cf.Val))
+						}
+						why = "a path returns without recording, for a non-nil container and a non-nil error, under: " + strings.Join(cs, ", ")
+					}
+					return
+				case *ssa.Panic:
+					return
+				case *ssa.If:
+					for k, sb := range fr.b.Succs {
+						nc := append(append([]condFact(nil), fr.conds...), condFact{x.Cond, k == 0, x})
+						walk(frame{sb, nc, fr.stored}, seen)
+					}
+					return
+				}
+			}
+			for _, sb := range fr.b.Succs {
+				walk(frame{sb, fr.conds, fr.stored}, seen)
+			}
+		}
+		walk(frame{fn.Blocks[0], nil, false}, map[*ssa.BasicBlock]bool{})
+		if npaths > 512 {
+			r.Note("shape-unrecognised R11.1: AddError has too many paths to enumerate; 'records every non-nil error' is not evaluated")
+		} else {
+			if badAt == token.NoPos {
+				badAt = fn.Pos()
+			}
+			r.Check("R11.1", FuncName(fn), "every non-nil error given to a non-nil container is recorded", badAt, bad == 0, why)
 		}
 	}
 
